@@ -515,3 +515,7 @@ ob("c12_exact_7_bytes", "chess::move_struct::verif_move::c12_exact_7_bytes", ["C
 ob("fen_side_4", "chess::verif_chess::fen::fen_side_4", ["C17"], "side field, all 4-byte ASCII strings: rejected", _F17, tier="thorough", timeout=900)
 ob("fen_castling_6", "chess::verif_chess::fen::fen_castling_6", ["C17"], "castling field, all 6-byte ASCII strings: rejected", _F17, tier="thorough", timeout=1200)
 ob("fen_ep_4", "chess::verif_chess::fen::fen_ep_4", ["C17", "C15"], "e.p. field, all 4-byte ASCII strings: rejected, no panic", _F17, tier="thorough", timeout=900)
+for _k in ["normal", "promotion", "enpassant", "castling_short", "castling_long"]:
+    ob("stack_discipline_" + _k, "chess::verif_chess::stack_discipline_" + _k, ["C02", "C03", "C15"],
+       f"{_k}: state stack of ANY length 2..=511: push appends one entry above an unchanged stack (arrayvec capacity assertion holds), pop removes it; earlier entries untouched",
+       _FPUSH + ["Game::pop"], tier="thorough", timeout=3600)
